@@ -98,13 +98,13 @@ impl PixelDataReader for RleLosslessAdapter {
                     // LSB G channel: 2,  8, 14, ...
                     // MSB G channel: 5, 11, 17, ...
                     // LSB G channel: 4, 10, 16, ...
+                    // (segment `ii` holds byte `byte_offset` of the sample
+                    // counting from the most significant one,
+                    // the output is little endian)
                     let frame_start = i * frame_size;
                     let start = frame_start
-                        + if samples_per_pixel == 3 {
-                            sample_number * bytes_per_sample + byte_offset
-                        } else {
-                            sample_number * bytes_per_sample + samples_per_pixel - byte_offset
-                        };
+                        + sample_number * bytes_per_sample
+                        + (bytes_per_sample - 1 - byte_offset);
 
                     let end = (i + 1) * frame_size;
                     for (decoded_index, dst_index) in (start..end)
@@ -202,11 +202,11 @@ impl PixelDataReader for RleLosslessAdapter {
                     .unwrap();
 
                 // Interleave pixels as described in the example above.
-                let start = if samples_per_pixel == 3 {
-                    sample_number * bytes_per_sample + byte_offset
-                } else {
-                    sample_number * bytes_per_sample + samples_per_pixel - byte_offset
-                };
+                // (segment `ii` holds byte `byte_offset` of the sample
+                // counting from the most significant one,
+                // the output is little endian)
+                let start =
+                    sample_number * bytes_per_sample + (bytes_per_sample - 1 - byte_offset);
 
                 let end = frame_size;
                 for (decoded_index, dst_index) in (start..end)
